@@ -74,6 +74,10 @@ impl Gen {
                 continue;
             }
             let v = self.rng.pick(vars).clone();
+            if depth < 2 && self.rng.chance(1, 5) {
+                l.extend(self.shadow_scenario(&v));
+                continue;
+            }
             let c = self.rng.below(if depth < 2 { 26 } else { 21 });
             let (k, lines): (&str, Vec<String>) = match c {
                 0 | 1 => ("rebind", vec![format!("{} = {}", self.fresh("w"), v)]),
@@ -123,6 +127,56 @@ impl Gen {
             };
             self.note(&format!("stmt:{}", k));
             l.extend(lines);
+        }
+        l
+    }
+
+    /// move sequences under shadowing: the name `v` (mutable, alive or already moved in the enclosing scope) is defined again
+    /// as a mutable variable in 1..3 nested subroutine scopes; at the innermost level the inner variable is moved and/or used;
+    /// afterwards the enclosing `v` is used and/or moved (both orders). Which variable a move marks and which one a later use
+    /// resolves to is exactly what `drop` / `check_if_dropped` must agree on.
+    fn shadow_scenario(&mut self, v: &str) -> Vec<String> {
+        let levels = 1 + self.rng.below(3);
+        let shadow_at_every_level = self.rng.chance(1, 2);
+        let outer_first = self.rng.chance(1, 3);
+        self.note(&format!("stmt:shadow-scenario-depth{}", levels));
+        let mut l: Vec<String> = vec![];
+        if outer_first {
+            // the enclosing variable is moved (or just used) before the inner scopes are entered
+            if self.rng.chance(1, 2) { self.note("shadow:outer-moved-first"); l.push(format!("{} = {}", self.fresh("w"), v)); }
+            else { self.note("shadow:outer-used-first"); l.push(format!("print! {}", v)); }
+        }
+        let mut ind = String::new();
+        let mut closers: Vec<(String, String)> = vec![];
+        for k in 0..levels {
+            let f = if self.rng.chance(1, 2) { format!("{}()", self.fresh("f")) } else { format!("{}!()", self.fresh("p")) };
+            l.push(format!("{}{} =", ind, f));
+            ind.push_str("    ");
+            if shadow_at_every_level || k == levels - 1 {
+                l.push(format!("{}{} = ![3]", ind, v));
+            }
+            closers.push((ind.clone(), f));
+        }
+        // innermost body: move and/or use the inner variable, several orders
+        match self.rng.below(5) {
+            0 => { self.note("shadow:inner-move-then-use"); l.push(format!("{}{} = {}", ind, self.fresh("w"), v)); l.push(format!("{}print! {}", ind, v)); }
+            1 => { self.note("shadow:inner-use-then-move"); l.push(format!("{}print! {}", ind, v)); l.push(format!("{}{} = {}", ind, self.fresh("w"), v)); }
+            2 => { self.note("shadow:inner-move-twice"); l.push(format!("{}{} = {}", ind, self.fresh("w"), v)); l.push(format!("{}{} = [{}]", ind, self.fresh("c"), v)); }
+            3 => { self.note("shadow:inner-move-by-call"); l.push(format!("{}take_mut {}", ind, v)); l.push(format!("{}print! {}", ind, v)); }
+            _ => { self.note("shadow:inner-use-only"); l.push(format!("{}print! {}", ind, v)); }
+        }
+        // unwind: after each inner scope, the variable of that level may be used / moved
+        for (i, (cind, _)) in closers.iter().enumerate().rev() {
+            l.push(format!("{}0", cind));
+            let outer_ind = &cind[..cind.len() - 4];
+            if i > 0 || true {
+                match self.rng.below(4) {
+                    0 => { self.note("shadow:after-use"); l.push(format!("{}print! {}", outer_ind, v)); }
+                    1 => { self.note("shadow:after-move-then-use"); l.push(format!("{}{} = {}", outer_ind, self.fresh("w"), v)); l.push(format!("{}print! {}", outer_ind, v)); }
+                    2 => { self.note("shadow:after-move"); l.push(format!("{}{} = {}", outer_ind, self.fresh("w"), v)); }
+                    _ => {}
+                }
+            }
         }
         l
     }
